@@ -135,10 +135,16 @@ EXPLANATION = (
     'c/python/pybrace/perlbrace_check_message_nocrash (no exception leaves check_message, templates included), dispatch_unknown / dispatch_single, '
     'tag_sites_pin, probes_pin (kernel evaluation of the model on ~250 rows probed from the live check_args / get_last_integer_conversion each run).  Readings made explicit: the corresponding source of the form selected exactly for n = 1 is msgid (as the tags print and data/tags '
     'documents); "a single n" includes no n; the 200-window is part of the statement; python-brace identifies an argument by its full field name.  '
+    'Also: c_plain_message_iff / python_plain_message_iff / pybrace_plain_message / perlbrace_plain_message (the first sentence of the statement as one '
+    'theorem about check_message per kind), python_reorder_silent (same (key, type) pairs among the named specifications the scanner reads), '
+    'c_reorder_silent_perm, perlbrace/pybrace/python/c_output_determined + output_lists_unique (sorted() emits keys in strictly increasing order - '
+    'numbers before names for python-brace - so the whole output list, order included, is determined by the signatures).  '
     'Finding fixed in /repo: 56d8ddf (python-brace check_args raised TypeError when a numbered and a named argument were both missing).  Test level only: '
     'the tie of the hand model to the code (fmtcheck-unit / -lastint / -e2e streams), the brace parsers (inputs here), the extras of single-string '
-    'diagnostics beyond the prefix.  OUTSTANDING: the sortedness of the emitted key order is not stated (membership and multiplicity are); the '
-    'constructive form of reorder_silent (an explicit `numbered π items` rendering) is replaced by the stronger extensional hypothesis.')
+    'diagnostics beyond the prefix.  OUTSTANDING: nothing of the design list is missing; the constructive form of reorder_silent (an explicit '
+    '`numbered π items` rendering) is replaced by the stronger extensional hypothesis (same arguments at the same types, any order / multiplicity), '
+    'with concrete renderings as kernel-evaluated examples; template-only behaviour (msgid vs msgid_plural, python template tags, qt-plural) is '
+    'modelled, streamed and covered by the nocrash theorems but has no iff theorem (the statement does not speak about templates).')
 
 if __name__ == '__main__':
     common.main_wrapper(main)
